@@ -341,13 +341,27 @@ class Unit:
         # expression mentions); the helper's contract is ASSUMED and reported in the trusted base.
         for oname, osig, ocall, ofirst, olast, olines, osha in outlines:
             # blanks in the two texts stand for any run of white space (the expression may span lines)
+            onth = None
+            mm_ = re.search(r'\s+##(\d+)$', ofirst)
+            if mm_:
+                onth = int(mm_.group(1))
+                ofirst = ofirst[:mm_.start()]
             rx1 = re.compile(r'\s+'.join(re.escape(w) for w in ofirst.split()))
             rx2 = re.compile(r'\s+'.join(re.escape(w) for w in olast.split()))
             m1 = rx1.search(text, bopen, bclose)
+            for _ in range((onth or 1) - 1):
+                if m1 is not None:
+                    m1 = rx1.search(text, m1.start() + 1, bclose)
             if m1 is None:
                 raise Lost('fn %s: outline %s: first text not found: %s' % (name, oname, ofirst))
-            if rx1.search(text, m1.start() + 1, bclose) is not None:
-                raise Lost('fn %s: outline %s: first text ambiguous: %s' % (name, oname, ofirst))
+            if onth is None and rx1.search(text, m1.start() + 1, bclose) is not None:
+                # several occurrences are fine when they are the SAME expression text: all of them become the call
+                spans = []
+                for mx in rx1.finditer(text, bopen, bclose):
+                    my = rx2.search(text, mx.start(), bclose)
+                    spans.append(text[mx.start():my.end()] if my else None)
+                if len(set(spans)) != 1:
+                    raise Lost('fn %s: outline %s: first text ambiguous: %s' % (name, oname, ofirst))
             a_ = m1.start()
             m2 = rx2.search(text, a_, bclose)
             if m2 is None:
@@ -359,7 +373,7 @@ class Unit:
             if digest != osha:
                 raise Lost('fn %s: outline %s: the outlined expression changed (sha %s, template pins %s); its assumed '
                            'contract no longer applies' % (name, oname, digest, osha))
-            rewrites.append((otext, ocall, False))
+            rewrites.append((otext, ocall, True))
             self.outlined[oname] = dict(name=oname, sig=osig, spec=olines, text=otext, of=name, file=rel,
                                         line=src.line_of(a_), props=kv.get('props', ''))
             self.rewrites.append(dict(rule='R12', fn=name, helper=oname, outlined=otext, call=ocall))
